@@ -11,6 +11,19 @@ BASE_NOTE = ("Trusted base: rustc front end/MIR construction as dumped by engine
              "crates assumed total. ")
 
 CLAIMS = {
+    "C02": dict(
+        category="other",
+        technique="abstract interpretation of the translator on exhaustively enumerated abstract AST shapes, compared with a reference encoding table",
+        text=("Translator::push_instruction is interpreted abstractly on every Instruction variant with every operand shape and "
+              "register (2100 shapes; constants and addresses unknown, labels opaque): the emitted slot sequence (opcode byte with "
+              "mode/register bits, operand bytes, label and relative-label slots) must equal the reference encoding, the address "
+              "counter must advance by exactly the number of slots, and exactly one line record with the same instruction must be "
+              "appended. .ORG/.BYTE zero fill, .DB order, .DW byte order (on word cells with disjoint high/low byte sets), .EQU and "
+              "label definitions, the relative-jump closure and the late substitution in finish are decided on cells."),
+        note=("One genuine defect found and fixed (.BYTE advanced the counter twice). Not decided: whole multi-line programs "
+              "as a composition (follows from the per-line clauses), wrap-around beyond 255 bytes (C06 findings). The reference "
+              "encoding is transcribed from the instruction table and cross-checked against the control store's dispatch in C01."),
+        design="3/C02"),
     "C06": dict(
         category="other",
         technique="panic-site enumeration over MIR + abstract interpretation of translator, loader and display code on exhaustively enumerated abstract AST shapes; cross-stage key-normalisation data-flow",
